@@ -137,6 +137,17 @@ func genVC(P *Program, C *Contracts, S *Sorts, key string, pure map[*ssa.Functio
 		ex.assume("(= (select " + ex.heapTerm(entry, w.Heap) + " " + t + ") (select " + ex.frozen(w.Heap) + " " + t + "))")
 		ex.writable[w.Heap] = append(ex.writable[w.Heap], t)
 	}
+	if ct.SpecArgs != "" {
+		retT := ""
+		if t, ok := bind["retType"]; ok {
+			retT = t
+		}
+		if a, ok := bind["args"]; ok {
+			ex.specArgsAssumptions(ct.SpecArgs, a, retT)
+		} else {
+			ex.fail("%s: spec_args on a function without an args parameter", key)
+		}
+	}
 	for _, r := range ct.Requires {
 		ex.assume(substSX(r.Term, envPre))
 	}
